@@ -75,7 +75,7 @@ pub fn choose(rng: &mut StdRng, p: &Pos, legal: &[Mv], policy: Policy) -> Mv {
 pub const MAX_HALF_CLOCK: u32 = 4095;
 
 pub const HALF_CLOCKS: [u32; 14] = [0, 1, 49, 50, 98, 99, 100, 127, 128, 129, 255, 256, 1000, 4095];
-pub const FULL_CLOCKS: [u32; 7] = [1, 2, 100, 2499, 2500, 2501, 30000];
+pub const FULL_CLOCKS: [u32; 12] = [1, 2, 100, 2499, 2500, 2501, 30000, 32767, 32768, 65535, 65536, 999_000];
 
 /// Replace the clocks of `p` by interesting values. `max_half` bounds the half-move clock.
 pub fn with_clocks(rng: &mut StdRng, p: &Pos, max_half: u32, max_full: u32) -> Pos {
